@@ -1,7 +1,7 @@
 import Wx.Reg.Model
 /-! Driver for the job-registry stream: `<id> <none|all> <action|action|…>`; an action is `op;op;…[/j,j,…]` (jobs deleted after it)
     with ops `c<t>` (create_job on thread t) `m<t>` (Id::default() on thread t) `g<k>` (get_or_create_job with the k-th id held)
-    `q<k>` (get_job). Answer: `<id> out=<n<j>|e<j>|-,…> leaked=<j,…> main=<ok|timeout>` after a graceful quit. -/
+    `q<k>` (get_job). A fourth field `abort` makes the final quit an abort. Answer: `<id> out=<n<j>|e<j>|-,…> leaked=<j,…> main=<ok|timeout>` after a graceful quit. -/
 namespace Wx.Driver.Reg
 open Rg
 
@@ -26,14 +26,17 @@ def showRes : Res → String
   | .created j => s!"n{j}" | .existing j => s!"e{j}" | .none => "-"
 
 def handleLine (line : String) : String :=
-  match line.splitOn " " with
-  | [id, cfg, acts] =>
+  let go (id cfg acts : String) (abort : Bool) : String :=
     match (acts.splitOn "|").mapM parseAction with
     | some script =>
       let w := run (init { f19 := cfg == "all" }) script
       let js (l : List Nat) := ",".intercalate (l.map toString)
-      s!"{id} out={",".intercalate (w.out.reverse.map showRes)} leaked={js (leaked w)} main={if (hung w).isEmpty then "ok" else "timeout"}"
+      if abort then s!"{id} out={",".intercalate (w.out.reverse.map showRes)} leaked={js (abortLeaked w)} main=ok"
+      else s!"{id} out={",".intercalate (w.out.reverse.map showRes)} leaked={js (leaked w)} main={if (hung w).isEmpty then "ok" else "timeout"}"
     | none => "bad-op"
+  match line.splitOn " " with
+  | [id, cfg, acts] => go id cfg acts false
+  | [id, cfg, acts, "abort"] => go id cfg acts true
   | _ => "bad-line"
 
 end Wx.Driver.Reg
